@@ -48,6 +48,8 @@ def equations(year):
         E("8995", "12", "add", ["1040.3a", "1040.7"], cite="Form 8995 line 12: net capital gain: qualified dividends plus capital gain (Form 1040 lines 3a and 7)"),
         E("8959", "1", "addinst", terms=[("w-2", "box_5")], cite="Form 8959 line 1: Medicare wages and tips from Form W-2, box 5 (total of all W-2s)"),
         E("8959", "19", "addinst", terms=[("w-2", "box_6")], cite="Form 8959 line 19: Medicare tax withheld from Form W-2, box 6 (total of all W-2s)"),
+        E("1040_s3", "1", "addinst", terms=[("1099-int", "box_6"), ("1099-div", "box_7")],
+          cite="Schedule 3 line 1, election not to file Form 1116 (Form 1040 instructions): the foreign taxes shown on Forms 1099-INT (box 6) and 1099-DIV (box 7), all copies", cond_nonzero=True),
         E("1040_sa", "8a", "addinst", terms=[("1098", "box_1"), ("1098", "box_6")], cite="Schedule A line 8a: home mortgage interest and points reported on Form 1098"),
         # Schedule A
         E("1040_sa", "5e", "minconst", ["5d"], consts=SALT, cite="5e. Enter the smaller of line 5d or $10,000 ($5,000 if married filing separately)"),
@@ -90,6 +92,11 @@ def equations(year):
     nc = "NC Form D-400 (%d), text of the bundled PDF" % year
     out += [
         E("nc_d-400", "6", "carry", src="1040.11", cite=nc + " 6. Federal Adjusted Gross Income"),
+        E("nc_d-400", "20a_plus_20b", "addstate", state="NC", tol=100,
+          terms=[("w-2", "box_15", "box_17"), ("1099-g", "box_10a_1", "box_11_1"), ("1099-g", "box_10a_2", "box_11_2"),
+                 ("1099-int", "box_15_1", "box_17_1"), ("1099-int", "box_15_2", "box_17_2"), ("1099-div", "box_14_1", "box_16_1"),
+                 ("1099-div", "box_14_2", "box_16_2"), ("1099-r", "box_14_1_state", "box_14_1"), ("1099-r", "box_14_2_state", "box_14_2")],
+          cite=nc + " 20. North Carolina Income Tax Withheld (a. your tax withheld, b. spouse's tax withheld): the N.C. tax withheld shown on Forms W-2 and 1099 -- every state row that names NC"),
         E("nc_d-400", "7", "carry", src="nc_d-400_ss." + NC_SS_TOTAL_ADDITIONS[year], cite="Schedule S: Total Additions - Add Lines 1 through %s (Enter the total here and on Form D-400, Line 7)" % ("14" if year == 2021 else "15")),
         E("nc_d-400", "8", "add", ["6", "7"], cite=nc + " 8. Add Lines 6 and 7"),
         E("nc_d-400", "9", "carry", src="nc_d-400_ss." + NC_SS_TOTAL_DEDUCTIONS[year], cite="Schedule S: Total Deductions (Enter the total here and on Form D-400, Line 9)"),
